@@ -80,6 +80,11 @@ pub trait Engine {
     fn crash_is_violation(&self) -> bool {
         true
     }
+    /// true if a case that does not terminate (stalls twice, on its own, far beyond any normal case time)
+    /// is itself a violation of this property; otherwise a stall is inconclusive
+    fn hang_is_violation(&self) -> bool {
+        false
+    }
     /// coverage-guided twin (thorough tier): libFuzzer target built with ASan + debug assertions
     fn fuzz(&self) -> Option<FuzzSpec> {
         None
@@ -507,6 +512,45 @@ fn status_with_timeout(cmd: &mut Command, secs: u64) -> Option<std::process::Exi
     wait_with_timeout(&mut child, Instant::now() + Duration::from_secs(secs))
 }
 
+enum WaitOutcome {
+    Exited(std::process::ExitStatus),
+    Budget,
+    /// the worker has been sitting on one case / sweep item for longer than `stall_secs`
+    Stalled,
+}
+
+fn file_age(p: &Path) -> Option<Duration> {
+    std::fs::metadata(p).ok()?.modified().ok()?.elapsed().ok()
+}
+
+fn wait_stall_aware(child: &mut std::process::Child, deadline: Instant, cur: &Path, swp: &Path, stall_secs: u64) -> WaitOutcome {
+    loop {
+        match child.try_wait() {
+            Ok(Some(st)) => return WaitOutcome::Exited(st),
+            Ok(None) => {
+                if Instant::now() > deadline {
+                    let _ = child.kill();
+                    let _ = child.wait();
+                    return WaitOutcome::Budget;
+                }
+                let age = match (file_age(cur), file_age(swp)) {
+                    (Some(a), Some(b)) => Some(a.min(b)),
+                    (a, b) => a.or(b),
+                };
+                if let Some(a) = age {
+                    if a > Duration::from_secs(stall_secs) {
+                        let _ = child.kill();
+                        let _ = child.wait();
+                        return WaitOutcome::Stalled;
+                    }
+                }
+                std::thread::sleep(Duration::from_millis(25));
+            }
+            Err(_) => return WaitOutcome::Budget,
+        }
+    }
+}
+
 fn wait_with_timeout(child: &mut std::process::Child, deadline: Instant) -> Option<std::process::ExitStatus> {
     loop {
         match child.try_wait() {
@@ -587,6 +631,7 @@ pub fn check_main(eng: &dyn Engine, tier: Tier) -> i32 {
         }
     }
     let mut results: Vec<Value> = vec![];
+    let mut stalls_seen = 0u32;
     for (idx, mut c) in children {
         // drain stdout in a thread to avoid pipe dead-lock
         let mut so = c.stdout.take().unwrap();
@@ -601,9 +646,58 @@ pub fn check_main(eng: &dyn Engine, tier: Tier) -> i32 {
             let _ = se.read_to_string(&mut s);
             s
         });
-        let st = wait_with_timeout(&mut c, deadline);
+        let cur_p = work_dir().join(format!("{prop}.{idx}.cur"));
+        let swp_p = work_dir().join(format!("{prop}.{idx}.sweepcur"));
+        let stall_secs: u64 = if tier == Tier::Thorough { 150 } else { 45 };
+        let wo = wait_stall_aware(&mut c, deadline, &cur_p, &swp_p, stall_secs);
         let stdout = h.join().unwrap_or_default();
         let stderr = he.join().unwrap_or_default();
+        let st = match wo {
+            WaitOutcome::Exited(st) => Some(st),
+            WaitOutcome::Budget => None,
+            WaitOutcome::Stalled => {
+                // which case was it sitting on? replay it alone, with the same patience
+                let build = if idx % 2 == 1 && dbg_exe.is_some() { "dbg" } else { "release" };
+                let body = if file_age(&swp_p).is_some() && (file_age(&cur_p).is_none() || file_age(&swp_p) < file_age(&cur_p)) {
+                    std::fs::read_to_string(&swp_p).ok().and_then(|t| serde_json::from_str::<Value>(&t).ok()).map(|item| json!({"property": prop, "engine": "sweep", "seed": seed, "build": build, "item": item, "failure": format!("worker made no progress for {stall_secs} s on this item")}))
+                } else {
+                    std::fs::read(&cur_p).ok().and_then(|data| {
+                        if data.len() < 4 {
+                            return None;
+                        }
+                        let n = u32::from_le_bytes([data[0], data[1], data[2], data[3]]) as usize;
+                        data.get(4..4 + n).map(|bytes| json!({"property": prop, "engine": "proptest", "seed": seed, "build": build, "bytes_hex": hex(bytes), "decoded": eng.describe(bytes), "failure": format!("worker made no progress for {stall_secs} s on this case")}))
+                    })
+                };
+                let _ = std::fs::remove_file(&swp_p);
+                let _ = std::fs::remove_file(&cur_p);
+                stalls_seen += 1;
+                match body {
+                    None => inconclusive.push(format!("worker {idx} stalled for {stall_secs} s and the case it was on could not be recovered")),
+                    Some(_) if stalls_seen > 2 => {
+                        // two stalls have already been replayed on their own; do not spend the patience again
+                        inconclusive.push(format!("worker {idx} stalled for {stall_secs} s as well (not replayed: two earlier stalls of this run were)"));
+                    }
+                    Some(body) => {
+                        let path = write_replay(prop, &format!("stall-{idx}"), &body);
+                        match status_with_timeout(Command::new(&exe).args(["replay", &path]).stdout(Stdio::null()).stderr(Stdio::null()), stall_secs) {
+                            None => {
+                                if eng.hang_is_violation() {
+                                    violations.push((format!("a generated case did not terminate: no progress for {stall_secs} s in the worker and again for {stall_secs} s when replayed alone (normal cases take milliseconds)"), path));
+                                } else {
+                                    inconclusive.push(format!("worker {idx} stalled for {stall_secs} s; the case also stalls when replayed alone ({path}); a hang is not a violation of {prop}"));
+                                }
+                            }
+                            Some(o) if o.code() == Some(1) || (o.code().is_none() && eng.crash_is_violation()) => {
+                                violations.push((format!("worker {idx} stalled; replayed alone the case fails"), path));
+                            }
+                            Some(_) => inconclusive.push(format!("worker {idx} stalled for {stall_secs} s but the case finishes when replayed alone ({path})")),
+                        }
+                    }
+                }
+                continue;
+            }
+        };
         match st {
             None => inconclusive.push(format!("worker {idx} hit the time budget and was stopped")),
             Some(st) if st.success() => match serde_json::from_str::<Value>(stdout.trim()) {
